@@ -56,7 +56,7 @@ func init() {
 			// per-request values (state, code challenge, options) must not live in variables shared by all requests of a handler
 			RunSliceAndClosureWrites(c, []string{"client/rp"}, nil)
 			// "with PKCE enabled": the switch is what the application chose - set by the WithPKCE option only, never recomputed
-			RunFieldWriters(c, "E6.rp.pkce-writers", "client/rp", "relyingParty", "pkce", []string{"client/rp.WithPKCE"}, "PKCE is switched by the WithPKCE option only (a relying party that asked for PKCE never runs a flow without it)")
+			RunGetterFieldWriters(c, "E6.rp.pkce-writers", "client/rp.(*relyingParty).IsPKCE", []string{"client/rp.WithPKCE"}, "PKCE is switched by the WithPKCE option only (a relying party that asked for PKCE never runs a flow without it)")
 		},
 	})
 }
